@@ -31,7 +31,7 @@ ASSUMPTIONS = [
 ]
 MANIFEST = {
     'level': 'exploration',
-    'technique': 'runtime monitoring under a virtual clock: timestamped trace of KEEPALIVE/NOTIFICATION/close seen by a scripted remote speaker, checked against timer bounds',
+    'technique': 'runtime monitoring under a virtual clock: timestamped trace of KEEPALIVE/NOTIFICATION/close seen by a scripted remote speaker, checked against timer bounds; hold and keepalive timers of the real exabgp process observed in real time (only what load cannot excuse is a violation: early expiry, a session dropped despite keepalives, a silence of a whole hold time)',
     'text': 'Timing schedules around the hold time and keepalive interval are generated per negotiated H and played against the '
     'real Peer main loop with time.time and the asyncio clock virtualised; each trace is checked for never-early, '
     'bounded-late, keepalive spacing, H=0 and open-wait bounds.',
@@ -172,7 +172,7 @@ def cases(tier, seed):
 
 def plan(tier, seed):
     n = 16
-    return [{'shard': i, 'nshards': n} for i in range(n)]
+    return [{'shard': i, 'nshards': n} for i in range(n)] + [{'shard': 900 + i, 'daemon': True, 'part': i} for i in range(4)]
 
 
 def kas(sess):
@@ -358,7 +358,92 @@ def judge(res: Result, case, rec):
         return
 
 
+def run_daemon(desc):
+    """the timers of the REAL daemon in REAL time (the lab runs them on a virtual clock).  Only what no load on the machine can
+    excuse is a violation: a hold-timer NOTIFICATION EARLIER than H after the peer's last message, a session dropped although
+    the peer sent a KEEPALIVE every H/3, a silence of the daemon of H seconds or more while the peer was reading.  A
+    NOTIFICATION which comes late, or not within H + 15 s, is counted / skipped"""
+    import time
+
+    from vlib import daemon, exa
+
+    res = Result()
+    mode = ('silent', 'chatty', 'silent', 'chatty')[desc['part'] % 4]
+    H = 3 if mode == 'silent' else 6
+    text = exa.neighbor_text(families=[(1, 1)], hold=H)
+    d = daemon.Daemon(text, env={'exabgp_log_level': 'ERROR'})
+    peer = None
+    wit = {'mode': mode, 'hold': H, 'level': 'daemon'}
+    try:
+        d.start()
+        peer = d.accept()
+        peer.establish(65001, hold=H)
+        t_last_tx = time.monotonic()
+        rx_times = [time.monotonic()]
+        if mode == 'silent':
+            got = None
+            while time.monotonic() - t_last_tx < H + 15:
+                t, body = peer.read_message(0.2)
+                if t == 3:
+                    got = (time.monotonic() - t_last_tx, body[0], body[1])
+                    break
+                if t is None:
+                    got = (time.monotonic() - t_last_tx, None, None)
+                    break
+            wit['observed'] = got
+            if got is None:
+                daemon.skipped(res, f'no hold-timer NOTIFICATION within H + 15 s of silence (H={H})')
+            elif got[1] is None:
+                res.violation('C12/daemon:closed-without-notification', f'silent peer, H={H}: the connection was closed after {got[0]:.2f} s without a NOTIFICATION', wit, 'daemon:silent')
+            elif (got[1], got[2]) != (4, 0):
+                res.violation(f'C12/daemon:wrong-notification:{got[1]}/{got[2]}', f'silent peer, H={H}: NOTIFICATION {got[1]}/{got[2]} after {got[0]:.2f} s', wit, 'daemon:silent')
+            elif got[0] < H - 0.3:
+                res.violation('C12/daemon:hold-expired-early', f'H={H}: hold-timer NOTIFICATION {got[0]:.2f} s after the peer\'s last message', wit, 'daemon:silent')
+            else:
+                res.ok('daemon:silent', ('daemon', 'silent', H))
+                res.ok('daemon:timers')
+                res.count('daemon:hold-expiry-late' if got[0] > H + 2 else 'daemon:hold-expiry-on-time')
+        else:
+            t0 = time.monotonic()
+            next_ka = t0 + H / 3
+            ended = None
+            while time.monotonic() - t0 < 2.5 * H:
+                if time.monotonic() >= next_ka:
+                    peer.send(4)
+                    next_ka += H / 3
+                t, body = peer.read_message(0.1)
+                if t in (2, 4):
+                    rx_times.append(time.monotonic())
+                elif t == 3:
+                    ended = ('notification', body[0], body[1], time.monotonic() - t0)
+                    break
+                elif t is None:
+                    ended = ('closed', None, None, time.monotonic() - t0)
+                    break
+            gaps = [b - a for a, b in zip(rx_times, rx_times[1:])] + [time.monotonic() - rx_times[-1]]
+            wit.update(ended=ended, max_gap=round(max(gaps), 2), keepalives_received=len(rx_times) - 1)
+            if ended:
+                res.violation(f'C12/daemon:closed-despite-traffic:{ended[0]}', f'H={H}: the peer sent a KEEPALIVE every {H / 3:.1f} s and the session ended ({ended[:3]}) after {ended[3]:.1f} s', wit, 'daemon:chatty')
+            elif max(gaps) >= H:
+                res.violation('C12/daemon:silent-for-a-hold-time', f'H={H}: the daemon sent nothing for {max(gaps):.1f} s while the peer was reading (it promises a KEEPALIVE every H/3)', wit, 'daemon:chatty')
+            else:
+                res.ok('daemon:chatty', ('daemon', 'chatty', H))
+                res.ok('daemon:timers')
+    except daemon.Inconclusive as e:
+        daemon.skipped(res, str(e))
+    finally:
+        try:
+            if peer is not None:
+                peer.close()
+        except Exception:  # noqa
+            pass
+        d.stop()
+    return res
+
+
 def run_shard(desc):
+    if desc.get('daemon'):
+        return run_daemon(desc)
     res = Result()
     cs = cases(desc['tier'], desc['seed'])
     # longest first for balance
@@ -375,7 +460,7 @@ def run_shard(desc):
 
 
 def finish(merged, tier, seed):
-    need = ['silence', 'gaps', 'ka:idle', 'ka:outbound', 'ka:inbound', 'h0', 'openwait', 'openconfirm', 'trickle', 'blocked-writer']
+    need = ['silence', 'gaps', 'ka:idle', 'ka:outbound', 'ka:inbound', 'h0', 'openwait', 'openconfirm', 'trickle', 'blocked-writer', 'daemon:timers']
     for n in need:
         if not any(c.startswith(n) and v for c, v in merged['classes'].items()):
             merged['inconclusive'].append(f'scenario class never judged: {n}')
